@@ -10,7 +10,7 @@ M=$T/relcheck/fatfs-mon
 run() { LLVM_PROFILE_FILE="$T/%p-%m.profraw" "$@" --out /dev/null >/dev/null 2>&1 || true; }
 for p in tree file alloc remount rootfill dirfill; do run $M sess --seed 1 --sessions 60 --profile $p --shadow 1 --short 1 --statusbits 1; done
 run $M sess --seed 2 --sessions 40 --profile mixed --builder 1 --atime 1 --nolibwalk 1
-for m in c01enum c02grid c05cycle c06 c07 c08 c09 c13 c14 c14fault c12fault c15 c16 c17 c18 c19 c20; do run $M $m --seed 1 --shard 3/64; done
+for m in c01enum c02grid c05cycle c06 c07 c08 c09 c13 c14 c14fault c12fault c05fault iterwalk c15 c16 c17 c18 c19 c20; do run $M $m --seed 1 --shard 3/64; done
 $BIN/llvm-profdata merge -sparse $T/*.profraw -o $T/all.profdata
 $BIN/llvm-cov report $M -instr-profile=$T/all.profdata /repo/src 2>/dev/null | grep -E "repo/src|TOTAL|Filename" | cut -c1-200
 $BIN/llvm-cov show $M -instr-profile=$T/all.profdata /repo/src --show-line-counts-or-regions=false 2>/dev/null > $T/show.txt
